@@ -229,6 +229,61 @@ def _same(a, b_):
     return a == b_
 
 
+def incremental_case(sp, col, seed_parts):
+    """A design space graph that is extended after it has been classified once: build, classify (objectives /
+    constraints of an evaluator), add a metric node under a permanent node to the SAME graph object, initialise again,
+    classify with a new evaluator.  The roles must be those of a graph built in one go with the extra metric."""
+    import copy
+    import adsg_core as ac
+    from adsg_core.optimization.evaluator import DSGEvaluator
+    from adsg_core.optimization.hierarchy.registry import SelChoiceEncoderType
+    sp = S.normalize(sp)
+    flags = S.classify(sp)
+    if sp['constraints'] or S.is_exotic(flags):
+        return
+    model = R.Model(sp)
+    perm = sorted(n for n in model.permanent() if model.nodes[n]['kind'] == 'named')
+    if not perm:
+        return
+    rnd = gen.rng_for('C17inc', *seed_parts)
+    parent = rnd.choice(perm)
+    kind = rnd.choice(['dir_only', 'dir_ref_declared_obj', 'dir_ref'])
+    extra = {'id': 'MX', 'kind': 'metric', 'dir': rnd.choice([-1, 1]),
+             'ref': None if kind == 'dir_only' else 1.5, 'type': 'OBJECTIVE' if kind == 'dir_ref_declared_obj' else None}
+    sp2 = copy.deepcopy(sp)
+    sp2.pop('features', None)
+    sp2['nodes'].append(extra)
+    sp2['edges'].append([parent, 'MX'])
+
+    def roles(ev, b_):
+        try:
+            return {'obj': sorted(b_.name(o.node) for o in ev.objectives),
+                    'con': sorted(b_.name(c.node) for c in ev.constraints)}
+        except RuntimeError as e:
+            return {'error': 'RuntimeError'}
+    b = B.build(sp)
+    b_fresh = B.build(sp2)
+    if b.dsg is None or b_fresh.dsg is None:
+        return
+    try:
+        ev1 = DSGEvaluator(b.dsg, encoder_type=SelChoiceEncoderType.COMPLETE)
+        roles(ev1, b)                                   # first classification on the graph object
+        mx_node = B.make_node(extra)
+        b.node['MX'] = mx_node
+        b._name[mx_node] = 'MX'
+        b.dsg.add_edge(b.node[parent], mx_node)         # extend the same object in place ...
+        dsg2 = b.dsg.set_start_nodes({b.node[s_] for s_ in sp['start']})   # ... and initialise it again
+        got = roles(DSGEvaluator(dsg2, encoder_type=SelChoiceEncoderType.COMPLETE), b)
+        want = roles(DSGEvaluator(b_fresh.dsg, encoder_type=SelChoiceEncoderType.COMPLETE), b_fresh)
+    except Exception as e:  # noqa
+        col.count('incremental_skipped_' + type(e).__name__)
+        return
+    col.count('monitor_incremental_evaluations')
+    if got != want:
+        col.violation('metric_role_differs', sp2, {'incremental': got, 'built_in_one_go': want, 'added_metric': extra,
+                                                   'under': parent}, flags, where={'history': 'extended_after_classification'})
+
+
 def worker(task, col):
     from adsg_core.optimization.evaluator import DSGEvaluator
     M.Tap(DSGEvaluator, 'evaluate', counter=col.count)
@@ -242,6 +297,8 @@ def worker(task, col):
     for i in range(task['lo'], task['hi']):
         name, sp = case_spec(task['seed'], i)
         common.guard(col, check_case, sp, col, name, ['C17', task['seed'], i])
+        if i % 3 == 0:
+            common.guard(col, incremental_case, sp, col, ['C17', task['seed'], i])
 
 
 def main(run):
